@@ -171,7 +171,7 @@ class FortranCodegenConservative(FortranCodegen):
         if o.source and o.source.status == SourceStatus.INVALID_CHILDREN:
             # Re-construct header and footer from source if possible
             h_end = o.body.source.lines[0] if o.body.source else o.source.lines[1]
-            h_end = min(h_end, o.spec.source.lines[0]) if o.spec.source else h_end
+            h_end = min(h_end, o.spec.source.lines[0]) if o.spec and o.spec.source else h_end
             if o.docstring:
                 h_end = min(h_end, o.docstring[0].source.lines[0])
 
